@@ -365,7 +365,13 @@ def r3(run: Run, src):
               f'the suspicious-content test sits inside {len(loops)} nested loop(s); it must run for every cell of every row of every '
               f'worksheet', fact='inside sheet/row/cell loops', loc=loc_of(pf.module.path, t))
     arg = ast.unparse(t.args[0]) if t.args else ''
-    run.check(arg.endswith('.value'), 'C19.R3', 'Excel.parse/tested-value', 'tested-value', f'the test is applied to `{arg}`',
+    arg_src = arg
+    if t.args and isinstance(t.args[0], ast.Name):
+        # a local that only ever names the stored value (value = cell.value)
+        defs_ = [n.value for n in ast.walk(pf.node) if isinstance(n, ast.Assign) and any(isinstance(x, ast.Name) and x.id == arg for x in n.targets)]
+        if defs_ and all(ast.unparse(d).endswith('.value') for d in defs_):
+            arg_src = ast.unparse(defs_[0])
+    run.check(arg_src.endswith('.value'), 'C19.R3', 'Excel.parse/tested-value', 'tested-value', f'the test is applied to `{arg}`',
               fact='cell.value', loc=loc_of(pf.module.path, t))
     conds = flat_conditions(path_conditions(pf.node, t, parents))
     extra = [('' if pol else 'not ') + ast.unparse(c) for c, pol in conds if not (ast.unparse(c) == arg and pol) and
